@@ -632,3 +632,4 @@ PROPS["C05"]["rule"] += " The parsed pairs also use percentages and day fraction
 PROPS["C19"]["rule"] += " Interface names include names that are prefixes of one another (eth1, eth10, eth1.100, e)."
 PROPS["C14"]["rule"] += " One random case in four lists one of the interface's own addresses (half of the time the wildcard's pick) among the static servers: the option is then not judged, the plugin must be unchanged."
 PROPS["C16"]["rule"] += " Wildcard cases give every other interface address the kernel's deprecated flag: only the stanza's own deprecated setting decides about counting down."
+
